@@ -73,6 +73,13 @@ def ob_results_used(ctx, res):
                 how = "discarded"
             elif cons and not propagated:
                 how = _short(cons[0]).split("::")[-1]
+                if how in ("ok", "err"):
+                    # `r.ok()` hands the outcome on as an Option: it is a swallow only if that Option is itself dropped unused
+                    # (`r.ok();`); when the Option is matched, mapped or returned the failure case reaches a decision, exactly as with
+                    # `let Ok(x) = r else { .. }`
+                    conv = [c2 for c2 in b["calls"] if "opt_uses" in c2 and _short(c2["callee"]).endswith("::" + how)]
+                    if conv and all(set(c2["opt_uses"]) - {"drop"} for c2 in conv):
+                        continue
             if how is None:
                 continue
             swallowed += 1
